@@ -218,16 +218,20 @@ func timeCheck(r *ev.Run, relaxed bool) {
 		id = "C17"
 	}
 	if relaxed {
-		r.Rule = "for each of GPS, Galileo, GLONASS, BeiDou: start time T in {week start, +1 ms, +1 s, Wednesday noon, week end -1 s, -1 ms} of a constellation week, each in 4 time zones, in the week of 2023-05-10 and, with three start times each, in weeks of June 2013 and July 2010 (civil Moscow time UTC+4) and the 2019/2020 year end; first observation u in {week start, +1 ms, Wednesday noon, week end -1 ms, T-1 h, T-1 s, T-1 ms, T, T+1 ms, T+1 h} restricted to the same week (so u<T, u=T and u>T all occur); then every history of depth <=2 (quick) / <=3 (thorough) further messages of any constellation with the C06 step menu; messages are CRC-valid header-only MSM4/MSM7 frames through handler.GetMessage; both log levels. Oracle: SentAt and StartOfWeek parsed with the public DateLayout equal the model's instant and week start. Non-trivial = histories whose first observation differs from T; distinct = distinct (T, history)"
+		r.Rule = "for each of GPS, Galileo, GLONASS, BeiDou: start time T in {week start, +1 ms, +1 s, Wednesday noon, week end -1 s, -1 ms} of a constellation week, each in 4 time zones, in the week of 2023-05-10 and, with three start times each, in weeks of June 2013 and July 2010 (civil Moscow time UTC+4), the 2019/2020 year end and March/November 2024 (next to the daylight-saving changes of the checker's host zone); first observation u in {week start, +1 ms, Wednesday noon, week end -1 ms, T-1 h, T-1 s, T-1 ms, T, T+1 ms, T+1 h} restricted to the same week (so u<T, u=T and u>T all occur); then every history of depth <=2 (quick) / <=3 (thorough) further messages of any constellation with the C06 step menu; messages are CRC-valid header-only MSM4/MSM7 frames through handler.GetMessage; both log levels. Oracle: SentAt and StartOfWeek parsed with the public DateLayout equal the model's instant and week start. Non-trivial = histories whose first observation differs from T; distinct = distinct (T, history)"
 	} else {
-		r.Rule = "start times T = Wednesday noon and, for each of GPS/Galileo, GLONASS and BeiDou, the roll-over instant -1 ms / +0 / +1 ms, each in UTC, Europe/London, Europe/Moscow and UTC+14, plus mid-week and GLONASS roll-over start times in June 2013, July 2010 (civil Moscow time UTC+4) and at the 2019/2020 year end; histories: every sequence of <=3 (quick) / <=4 (thorough, from the UTC start times; <=3 from the others) messages where each message belongs to one of the four constellations (MSM4 and MSM7 alternating) and its true time is the constellation's previous time advanced by one of {0, 1 ms, 1 s, 1 h, 1 d, 5 d 23:59:59.999, to 1 ms before the next roll-over, to the roll-over, to 1 ms after it} (first message: not earlier than T, same constellation week), or carries an illegal timestamp (7 days of ms; all ones; GLONASS day 7; GLONASS 24 h of ms); plus single-constellation histories of depth <=5 (quick) / <=6 (thorough); messages are CRC-valid header-only frames through handler.GetMessage at both log levels (implementation state is cloned at every branch). Oracle: SentAt and StartOfWeek parsed with the public DateLayout equal the true instant and week start of the reference time model; an illegal timestamp gives an error and no time and leaves later messages exact; plus stream histories: four-message histories (first observation, a second constellation, then +0/+1 s/+1 d/+5 d 23:59:59.999/to the roll-over/+1 ms/+2 d, then +1 s/+3 d/past the next roll-over) delivered through Handler.HandleMessages and cut into one, two or three consecutive streams in every way, each stream a further call on the SAME handler with fresh channels. Non-trivial = histories crossing at least one roll-over; distinct = distinct (T, history)"
+		r.Rule = "start times T = Wednesday noon and, for each of GPS/Galileo, GLONASS and BeiDou, the roll-over instant -1 ms / +0 / +1 ms, each in UTC, Europe/London, Europe/Moscow and UTC+14, plus mid-week and GLONASS roll-over start times in June 2013, July 2010 (civil Moscow time UTC+4), at the 2019/2020 year end and in the weeks of 13 March and 6 November 2024 (the roll-over after them is the first one computed across a daylight-saving change of the zone the checker process runs in, America/New_York); histories: every sequence of <=3 (quick) / <=4 (thorough, from the UTC start times; <=3 from the others) messages where each message belongs to one of the four constellations (MSM4 and MSM7 alternating) and its true time is the constellation's previous time advanced by one of {0, 1 ms, 1 s, 1 h, 1 d, 5 d 23:59:59.999, to 1 ms before the next roll-over, to the roll-over, to 1 ms after it} (first message: not earlier than T, same constellation week), or carries an illegal timestamp (7 days of ms; all ones; GLONASS day 7; GLONASS 24 h of ms); plus single-constellation histories of depth <=5 (quick) / <=6 (thorough); messages are CRC-valid header-only frames through handler.GetMessage at both log levels (implementation state is cloned at every branch). Oracle: SentAt and StartOfWeek parsed with the public DateLayout equal the true instant and week start of the reference time model; an illegal timestamp gives an error and no time and leaves later messages exact; plus stream histories: four-message histories (first observation, a second constellation, then +0/+1 s/+1 d/+5 d 23:59:59.999/to the roll-over/+1 ms/+2 d, then +1 s/+3 d/past the next roll-over) delivered through Handler.HandleMessages and cut into one, two or three consecutive streams in every way, each stream a further call on the SAME handler with fresh channels. Non-trivial = histories crossing at least one roll-over; distinct = distinct (T, history)"
 	}
 	r.Assumptions = []string{"reference time model /verif/ref/gnsstime.go: GPS and Galileo weeks start Sunday 00:00:00 UTC - 18 s, BeiDou - 4 s, GLONASS day and week on UTC+3", "the precondition of the statement is enforced by construction: per constellation non-decreasing times, consecutive messages less than six days apart, first observation in T's constellation week" + map[bool]string{true: " (before, at or after T)", false: " and not before T"}[relaxed]}
 	const ms = time.Millisecond
 	wed := time.Date(2023, 5, 10, 12, 0, 0, 0, time.UTC)
 	// other weeks: civil Moscow time was UTC+4 in 2013 and in summer 2010 (the
 	// constellation clock is not the civil clock), and a week across a year end
-	otherWeeks := []time.Time{time.Date(2013, 6, 12, 12, 0, 0, 0, time.UTC), time.Date(2010, 7, 14, 12, 0, 0, 0, time.UTC), time.Date(2019, 12, 31, 12, 0, 0, 0, time.UTC)}
+	// ... and the weeks before the host zone's daylight-saving changes of 2024 (the
+	// checker runs in America/New_York: 10 March and 3 November), so that the next
+	// roll-over is computed across the change
+	otherWeeks := []time.Time{time.Date(2013, 6, 12, 12, 0, 0, 0, time.UTC), time.Date(2010, 7, 14, 12, 0, 0, 0, time.UTC), time.Date(2019, 12, 31, 12, 0, 0, 0, time.UTC),
+		time.Date(2024, 3, 13, 12, 0, 0, 0, time.UTC), time.Date(2024, 11, 6, 12, 0, 0, 0, time.UTC)}
 	type start struct {
 		T time.Time
 		c ref.Constellation // constellation whose week edge T sits on (or GPS)
